@@ -9,6 +9,7 @@ mod c08;
 mod consts;
 mod gad;
 mod c09;
+mod c11;
 mod c14;
 mod c15;
 mod c16;
@@ -77,6 +78,7 @@ fn main() {
         "c06" => c06::main(rest),
         "c08" => c08::main(rest),
         "c09" => c09::main(rest),
+        "c11" => c11::main(rest),
         "c14" => c14::main(rest),
         "c15" => c15::main(rest),
         "c16" => c16::main(rest),
